@@ -74,6 +74,12 @@ structure Params where
   /-- `consensus.VotePendingBlockNums` -/
   pending : Nat → Nat
 
+/-- `consensus.VotePendingBlockNums` over a table of (BeginBlock, EndBlock, Num) rows -/
+def pendingOfTable (tbl : List (Nat × Nat × Nat)) (dflt : Nat) (h : Nat) : Nat :=
+  match tbl.find? (fun t => decide (t.1 ≤ h) && decide (h < t.2.1)) with
+  | some t => t.2.2
+  | none => dflt
+
 abbrev DB := List Utxo
 
 def dbGet (id : Nat) (db : DB) : Option Utxo := db.find? (fun u => u.id == id)
